@@ -44,7 +44,7 @@ pub struct Scenario {
 
 fn gen_program(p: &mut Prng, arch: Arch, info: Info) -> Scenario {
     let depth = 1 + p.below(6) as usize; // callers above the innermost frame (root included)
-    let fp_only = !matches!(info, Info::Dwarf(_));
+    let fp_only = matches!(info, Info::NoModule | Info::EmptyModule | Info::NoFdes(_));
     let mut funcs = Vec::new();
     let mut start = 0x100u64;
     let mut chain = Vec::new();
@@ -151,7 +151,7 @@ fn module_for(sc: &Scenario, lay: &Layout, p: &mut Prng, omit: Option<usize>) ->
         enc: *p.pick(&[PtrEnc::Abs8, PtrEnc::PcRel4, PtrEnc::PcRel8, PtrEnc::TextRel4]),
         hdr_abs: p.chance(1, 2),
         dbg_version: *p.pick(&[1u8, 3, 4]),
-        n_cies: 1 + p.below(3) as u8,
+        n_cies: 1 + p.below(5) as u8,
     })
 }
 
@@ -310,7 +310,7 @@ fn run_scenario<H: ArchH>(rep: &mut Report, p: &mut Prng, sc: &Scenario, id: u64
             // direct judgement for the frame-pointer convention (C04)
             let got_items = ans.split(' ').next().unwrap_or("").to_string();
             let want = format!("{},none", exp.walk_items);
-            if got_items != want && !fp_truth_excluded(sc, *stop) {
+            if got_items != want && !fp_truth_excluded(sc, *stop) && tag.is_empty() {
                 rep.add_finding(Finding {
                     props: vec!["C04".into()],
                     kind: "oracle".into(),
